@@ -23,7 +23,7 @@ import os
 from .model import FuncInfo, clone, set_parents, src, walk_no_defs
 
 HERE = os.path.dirname(os.path.abspath(__file__))
-MAX_DEPTH = 2
+MAX_DEPTH = 3
 MAX_STMTS = 80
 
 
@@ -190,7 +190,8 @@ def _resolve(repo, caller, call, known):
     if isinstance(f, ast.Attribute) and isinstance(f.value, ast.Name) and f.value.id == 'self' and caller.cls is not None:
         callee = caller.cls.lookup(f.attr)
         is_method = True
-        if callee is not None and callee.node.args.args and callee.node.args.args[0].arg != 'self':
+        if callee is not None and callee.node.args.args and callee.node.args.args[0].arg != 'self' and not any(
+                isinstance(d, ast.Name) and d.id == 'staticmethod' for d in callee.node.decorator_list):
             return None, False
     elif isinstance(f, ast.Name):
         callee = caller.module.functions.get(f.id)
@@ -198,8 +199,11 @@ def _resolve(repo, caller, call, known):
         return None, False
     if callee.ref in known:
         return None, False
-    if callee.handler is not None or callee.is_property or callee.is_generator or callee.node.decorator_list:
+    static = [d for d in callee.node.decorator_list if isinstance(d, ast.Name) and d.id == 'staticmethod']
+    if callee.handler is not None or callee.is_property or callee.is_generator or (callee.node.decorator_list and len(static) != len(callee.node.decorator_list)):
         return None, False
+    if static:
+        is_method = False       # `self.h(x)` with a @staticmethod: no instance is bound
     if isinstance(callee.node, ast.AsyncFunctionDef):
         return None, False
     if sum(1 for _ in ast.walk(callee.node) if isinstance(_, ast.stmt)) > MAX_STMTS:
@@ -278,6 +282,17 @@ def _pred_expr(stmts):
     s = stmts[0]
     if isinstance(s, ast.Return) and s.value is not None and len(stmts) == 1:
         return s.value
+    if isinstance(s, ast.Assign) and len(s.targets) == 1 and isinstance(s.targets[0], ast.Name) and len(stmts) > 1:
+        # a local that names a part of the argument (`code = exc.args[0]`), bound once: stands for that expression in the rest
+        from .normalize import _Subst, _path
+        name = s.targets[0].id
+        stored = sum(1 for st in stmts for w in ast.walk(st) if isinstance(w, ast.Name) and w.id == name and isinstance(w.ctx, (ast.Store, ast.Del)))
+        if stored != 1 or not _path(s.value):
+            return None
+        rest = _pred_expr(stmts[1:])
+        if rest is None:
+            return None
+        return _Subst({name: s.value}, set()).visit(clone([ast.Expr(value=rest)])[0]).value
     if isinstance(s, ast.If) and len(s.body) == 1 and isinstance(s.body[0], ast.Return) and s.body[0].value is not None:
         rest = _pred_expr(s.orelse if s.orelse else stmts[1:])
         if rest is None or (s.orelse and len(stmts) > 1):
@@ -344,8 +359,9 @@ def _hoist(repo, caller, s, known, caller_names):
         return None
     calls = []
     _postorder(root, [], calls)
+    multi = isinstance(s, ast.Assign) and len(s.targets) > 1       # `a = b[k] = self.h(x)`: the call is bound to a temporary first
     for i, (c, chain) in enumerate(calls):
-        if c is root:
+        if c is root and not multi:
             continue
         callee, _m = _resolve(repo, caller, c, known)
         if callee is None:
